@@ -41,6 +41,7 @@ async def tool_call(call):
 
 
 TOOLS: dict = {}
+SCHEMAS: dict = {}
 
 
 def direct_call(call):
@@ -64,7 +65,10 @@ def direct_call(call):
         from octave_mcp.core.validator import Validator
         from octave_mcp.schemas.loader import get_builtin_schema, load_schema_by_name
 
-        sd = load_schema_by_name(call["schema"])
+        # loaded once per process and reused, as an embedding application holds its schema objects
+        if call["schema"] not in SCHEMAS:
+            SCHEMAS[call["schema"]] = load_schema_by_name(call["schema"])
+        sd = SCHEMAS[call["schema"]]
         v = Validator(schema=get_builtin_schema(call["schema"]))
         errs = v.validate(parse(text), strict=call.get("strict", False), section_schemas={sd.name: sd} if sd is not None and sd.fields else None)
         return {"errors": [[e.code, e.field_path, e.message] for e in errs], "routing": v.routing_log.to_dict()}
